@@ -1003,6 +1003,39 @@ def run(tier: str) -> int:
         else:
             rep.violation("the two oracles (path enumeration on the recipe / Lean initCheck on the CFG) disagree",
                           {"kind": "program", "tier": tier, "index": i, "detail": det}, no_input=True)
+    # ---- the same routine object in two programs of one process: whether a variable is "used by a single routine" is a fact about the
+    # PROGRAM being compiled, so a routine accepted inside one program can hold an offending load inside the next
+    hist = {"sequences": 0, "rejected_as_required": 0}
+    pt = _pt()
+    import pyteal.errors as pe
+    for version, okw in ((6, {}), (8, {}), (8, {"frame_pointers": False}), (10, {"scratch_slots": False}), (10, {})):
+        for order in ("good-first", "bad-first", "good-good-bad"):
+            g_ = pt.ScratchVar(pt.TealType.uint64)
+
+            def _reader():
+                return g_.load() + pt.Int(1)
+            reader = pt.Subroutine(pt.TealType.uint64, name="reader")(_reader)
+            good = lambda: pt.Seq(g_.store(pt.Int(5)), pt.Pop(reader()), pt.Approve())     # noqa: E731  main stores: shared slot
+            bad = lambda: pt.Seq(pt.Pop(reader()), pt.Approve())                            # noqa: E731  the routine is the only user
+            kw = {"optimize": pt.OptimizeOptions(**okw)} if okw else {}
+            seq_ = {"good-first": [good, bad], "bad-first": [bad, good], "good-good-bad": [good, good, bad]}[order]
+            hist["sequences"] += 1
+            for th in seq_:
+                try:
+                    teal = pt.compileTeal(th(), pt.Mode.Application, version=version, **kw)
+                    outcome_ = ("ok", teal)
+                except pe.TealInternalError as e:
+                    c_ = e.__cause__
+                    outcome_ = ("rbw",) if isinstance(c_, pe.TealCompileError) and "load occurs before store" in c_.msg else ("err", str(e)[:200])
+                except Exception as e:  # noqa: BLE001
+                    outcome_ = ("err", type(e).__name__ + ": " + str(e)[:200])
+                want = "ok" if th is good else "rbw"
+                if outcome_[0] == want:
+                    hist["rejected_as_required"] += want == "rbw"
+                    continue
+                rep.violation(f"one routine object in two programs of a process (order {order}, v{version} {okw}): the program in which the routine is the "
+                              f"only user of the variable and nothing stores it gives {outcome_[0]} (required: {'accepted' if want == 'ok' else 'rejected, naming the load'})",
+                              {"kind": "shared-routine", "order": order, "version": version, "options": okw, "outcome": list(outcome_)})
     d.close()
 
     if not proofs_ok:
@@ -1019,6 +1052,7 @@ def run(tier: str) -> int:
                 "offending load and announcing |offending loads| errors iff the recipe has a read-before-write path",
         "samples": gsamples + psamples,
         "distribution": {"graphs": gstats, "programs": pstats, "program_constructs": shapes, "skipped_because": skips,
+                         "one_routine_object_in_several_programs": hist,
                          "rejected_share_of_decided_programs": round(pstats["ok-reject"] / decided, 3) if decided else None},
     })
     rep.assumptions += [
